@@ -15,7 +15,7 @@ RULE = ("G2 typed Sids x G3 queries / keyword overlays of 1..3 pairs (existing, 
 ASSUME = ["not judged (counted unspecified): repeated keys, inner or doubled '~', blank values, URL metacharacters, "
           "(a Sid is a search when its string OR the applied query carries a search symbol)",
           "field ORDER of the result is not part of C04 (C03 checks navigation of query-built Sids)"]
-BUDGET = {"quick": 40000, "thorough": 600000}
+BUDGET = {"quick": 40000, "thorough": 2400000}
 NSHARDS = 16
 
 
